@@ -236,6 +236,10 @@ pub struct Broken {
     pub breaker: String,
     pub suffix: Pat,
     pub rec: Rec,
+    /// the whole thing sits inside a group: 1 `{(..)}`, 2 `{(..):.3000}`, 3 `{h(..):.2000}`, 4 `{(..):<1.3000}` - what
+    /// precedes the error inside the group still renders (only where prefix, breaker and suffix are free of parentheses)
+    #[serde(default)]
+    pub wrap: u8,
 }
 
 pub const BREAKERS: [&str; 54] = [
@@ -254,11 +258,12 @@ pub const BREAKERS: [&str; 54] = [
 ];
 
 pub fn broken_strategy() -> impl Strategy<Value = Broken> {
-    (pattern(0.3), any::<u16>(), pattern(0.3), rec()).prop_map(|(prefix, b, suffix, rec)| Broken {
+    (pattern(0.3), any::<u16>(), pattern(0.3), rec(), prop_oneof![3 => Just(0u8), 2 => 1u8..5]).prop_map(|(prefix, b, suffix, rec, wrap)| Broken {
         prefix,
         breaker: pick(&BREAKERS[..], b).to_string(),
         suffix,
         rec,
+        wrap,
     })
 }
 
@@ -278,6 +283,24 @@ pub fn check_broken(case: &Broken, obs: &mut Obs) -> CaseResult {
     } else {
         format!("{}{} {}", p, case.breaker, print(&case.suffix, false))
     };
+    // inside a group: only where nothing but the group's own parentheses is in play
+    // Only breakers that are well-formed as far as the grammar goes and wrong in what they say (unknown formatter, wrong
+    // number of arguments, unknown zone): they leave the enclosing group's syntax intact. A formatter whose own text is
+    // malformed takes the formatters around it down with it - the group as a whole is then the unit that is in error.
+    const SEMANTIC: [&str; 17] = ["{nope}", "{zz9}", "{h}", "{D}", "{R}", "{X}", "{m(x)}", "{l()}", "{X()}", "{X(a)(b)(c)}", "{(a)(b)}", "{h(a)(b)}", "{d(%Y)(mars)}", "{d(%Y)()}", "{d(%Y)(utc)(x)}", "{d(%Y)(utcutc)}", "{語語語語語語語語語語語語語語語語語語語語語語}"];
+    let paren_free = |x: &str| !(x.contains('(') || x.contains(')') || x.contains('\\'));
+    let wrappable = case.wrap % 5 != 0 && SEMANTIC.contains(&&case.breaker[..]) && paren_free(&p) && paren_free(&print(&case.suffix, false));
+    let s = if wrappable {
+        obs.class("error-inside-a-group");
+        match case.wrap % 5 {
+            1 => format!("{{({})}}", s),
+            2 => format!("{{({}):.3000}}", s),
+            3 => format!("{{h({}):.2000}}", s),
+            _ => format!("{{({}):<1.3000}}", s),
+        }
+    } else {
+        s
+    };
     let outs = exercise(&s, std::slice::from_ref(&case.rec))?;
     let Some((out, ok)) = outs.first() else {
         obs.class("width-above-sanity-bound(construct only)");
@@ -285,6 +308,11 @@ pub fn check_broken(case: &Broken, obs: &mut Obs) -> CaseResult {
     };
     let env = Env { thread_name: "main".into(), debug_build: cfg!(debug_assertions), now_secs: 0 };
     let head = render(&case.prefix, &case.rec, &env);
+    // (a record that renders to more than the group's maximum would be cut: not what is studied here)
+    if wrappable && out.chars().count() >= 1900 {
+        obs.class("group-content-beyond-its-max-width(skipped)");
+        return Ok(());
+    }
     ensure!(
         out.starts_with(&head),
         "C11:prefix-not-rendered",
